@@ -910,12 +910,9 @@ def forms_run(ctx):
                 if got != ref:
                     key = "lemke_howson_%s_as_%s" % (arg, T.__name__)
                     msg = "lemke_howson(%s=%s(%d)) -> %s, with a Python int -> ok" % (arg, T.__name__, base[arg], got if isinstance(got, str) else "different result")
-                    if isinstance(got, str) and key not in ctx.known:
-                        # the CLEAN code mishandles this legal form: counted until listed
-                        ctx.count("unlisted-finding:" + key)
-                        ctx.extra.setdefault("unlisted_findings", {})[key] = dict(rep0, what=msg, **{arg: "%s(%d)" % (T.__name__, base[arg])})
-                    else:
-                        ctx.spec_fail(key, msg, dict(rep0, **{k: str(v) for k, v in kw.items()}))
+                    # (np.uint64 init_pivot used to end in a Numba TypingError; fixed in /repo, kept as a
+                    #  regression case: any accepted integer type must give the answer of the Python int)
+                    ctx.spec_fail(key, msg, dict(rep0, **{k: "%s(%s)" % (type(v).__name__, v) for k, v in kw.items()}))
         # optional arguments: omitted / None / positional / keyword; full_output forms
         ip = base["init_pivot"]
         alts = [lemke_howson(canon, ip), lemke_howson(canon, init_pivot=ip), lemke_howson(canon, ip, 10 ** 6),
